@@ -30,6 +30,29 @@ def install(reg):
         return VBool(z3.Implies(p.truth(a), p.truth(b)))
     SF["implies"] = s_implies
 
+    def s_mod_step(p, x, n):
+        """ground instance of (x mod n == 0  =>  (x + n) mod n == 0) for n > 0  (Lean core: Nat.add_mod_right)"""
+        xt, nt = p.as_int(x), p.as_int(n)
+        return VBool(z3.Implies(z3.And(nt > 0, xt % nt == 0), (xt + nt) % nt == 0))
+    SF["mod_step"] = s_mod_step
+
+    def s_mod_witness(p, x, n, q):
+        """ground instance of: n > 0 and q*n <= x < (q+1)*n  =>  x mod n == x - q*n  (uniqueness of quotient and remainder;
+        Lean core: Nat.mod_eq_of_lt after subtracting q*n)"""
+        xt, nt, qt = p.as_int(x), p.as_int(n), p.as_int(q)
+        return VBool(z3.Implies(z3.And(nt > 0, qt * nt <= xt, xt < (qt + 1) * nt), xt % nt == xt - qt * nt))
+    SF["mod_witness"] = s_mod_witness
+
+    def s_is_pair(p, x):
+        """x is a 2-tuple"""
+        from pyvc.values import VTuple, VBox, PV
+        if isinstance(x, VTuple):
+            return VBool(z3.BoolVal(len(x.items) == 2))
+        if isinstance(x, VBox):
+            return VBool(z3.And(PV.is_PTuple(x.t), z3.Length(PV.titems(x.t)) == 2))
+        return VBool(z3.BoolVal(False))
+    SF["is_pair"] = s_is_pair
+
     def s_is_pow2(p, x):
         return VBool(p.engine.is_pow2(p, p.as_int(x)))
     SF["is_pow2"] = s_is_pow2
@@ -397,6 +420,14 @@ def install_merkle_specs(reg):
         p.alloc(h)
         return VBox(PV.PList(p.list_seq(h)))
     SF["repeat_digest"] = s_repeat_digest
+
+    def s_repeat_step(p, d, k):
+        """ground instance of the definition of a constant sequence: [d]*(k+1) == [d]*k ++ [d]  (k >= 0)"""
+        dt, kt = p.bytes_term(d), p.as_int(k)
+        a = PV.items(s_repeat_digest(p, VBytes(dt), VInt(kt)).t)
+        b = PV.items(s_repeat_digest(p, VBytes(dt), VInt(kt + 1)).t)
+        return VBool(z3.Implies(kt >= 0, b == z3.Concat(a, z3.Unit(PV.PBytes(dt)))))
+    SF["repeat_step"] = s_repeat_step
 
     def s_cat(p, a, b):
         """list concatenation as PV sequence"""
